@@ -139,7 +139,7 @@ func engineNotebook(ctx *Ctx) {
 		model := []c08Entry{}
 		dupCmd := "" // the command string a hand-edited notebook lists twice
 		start := []string{"missing", "empty-0-bytes", "empty-list", "populated"}[r.Intn(4)]
-		if ctx.G(hI)%4 == 1 {
+		if ctx.G(hI)%4 == 1 || ctx.G(hI)%8 == 0 {
 			start = "populated"
 		}
 		os.MkdirAll(filepath.Dir(h.Personal()), 0o755)
@@ -175,6 +175,19 @@ func engineNotebook(ctx *Ctx) {
 				ctx.R.Path("notebooks-listing-a-command-twice", 1)
 			}
 			vlib.WriteYAML(h.Personal(), pre)
+			if g := ctx.G(hI); g%8 == 0 {
+				// a notebook kept by hand in another layout of the same list: JSON / flow style, indented, with document markers and
+				// comments, without a final newline, with CR LF line ends
+				layout := vlib.NotebookLayouts[(g/8)%len(vlib.NotebookLayouts)]
+				if vlib.WriteYAMLLayout(h.Personal(), pre, layout) == nil {
+					if nb, err := database.LoadDatabase(h.Personal()); err != nil || len(nb.Commands) != len(pre) {
+						vlib.WriteYAML(h.Personal(), pre) // (a layout the loader reads differently is not what this class is about)
+					} else {
+						start = "populated/" + layout
+						ctx.R.Path("notebooks-in-another-layout", 1)
+					}
+				}
+			}
 			for _, c := range pre {
 				model = append(model, c08Entry{Command: c.Command, Description: c.Description, Niche: c.Niche, Keywords: c.Keywords, Platforms: c.Platform, Pipeline: c.Pipeline})
 			}
